@@ -397,7 +397,9 @@ class PredEval:
 
     # -- evaluation ------------------------------------------------------------------------------
 
-    def table(self) -> Table:
+    def table(self, expand: "Callable[[str], bool] | None" = None) -> Table:
+        """`expand`: which opaque atoms a rule reads - don't-care values are filled in only for those (an atom the rule never looks
+        at, e.g. the bookkeeping of a once-a-day warning, then costs one leaf per outcome instead of doubling the table)."""
         # subjects that are loop variables/locals are resolved through the environment, not enumerated
         fn_params = {a.arg for a in self.f.node.args.posonlyargs + self.f.node.args.args + self.f.node.args.kwonlyargs}
         self._param_subjects = {k for k in self.subjects if k in fn_params and k not in self.params}
@@ -429,11 +431,11 @@ class PredEval:
         self.leaves = leaves
         total = len(leaves)
         rows: list[tuple[dict[str, Any], Any]] = []
-        est = sum(2 ** (len(atoms) - len(a)) for _e, a, _r, _x in leaves)
+        est = sum(2 ** len([k for k in atoms if k not in a and (expand is None or expand(k))]) for _e, a, _r, _x in leaves)
         if est > self.max_rows:
             raise Unsupported(f"decision table too large ({est} rows)")
         for env, aenv, res, eff in leaves:
-            free = [k for k in atoms if k not in aenv]
+            free = [k for k in atoms if k not in aenv and (expand is None or expand(k))]
             for bits in itertools.product((False, True), repeat=len(free)):
                 rows.append(({**env, **aenv, **dict(zip(free, bits)), "__effects__": eff}, res))
         return Table({k: self.subjects[k] for k in subj_keys}, atoms, rows)
